@@ -218,7 +218,95 @@ def writer_level(ctx):
     return {"writer_runs": len(res), "writer_calls": sum(len(r["steps"]) for r in res), "writer_corr_mismatches": len(corr_bad), "writer_defect_kinds": dict(kinds_seen)}
 
 
+def overlapping_writers(args):
+    """(child) two threads of one process write into two *unrelated* datasets at overlapping times.  Thread A's write of a wrong-shaped
+    example is paused in the middle of its validation (the example is a mapping whose lookup of one attribute waits) while the main
+    thread performs complete writes — accepted and rejected ones — into the other dataset; then A continues.  Each dataset must hold
+    exactly its own accepted examples: a verdict on one example does not depend on what another writer does meanwhile."""
+    import threading
+    sp.sedpack()
+    np = sp.np
+    from sedpack.io import Attribute, Dataset
+    out = []
+    decl = [("a", "int32", (2,)), ("b", "float32", (3,)), ("c", "uint8", ())]
+    def example(v, bad=None):
+        vals = {"a": np.array([v, v], dtype=np.int32), "b": np.full((3,), v % 100, dtype=np.float32), "c": np.uint8(v % 200)}
+        if bad is not None:
+            shp = dict((n, s) for n, _, s in decl)[bad]
+            vals[bad] = np.zeros(tuple(shp) + (2,), dtype=dict((n, d) for n, d, _ in decl)[bad])
+        return vals
+    class Pausing(dict):
+        def __init__(self, d, key, reached, go):
+            super().__init__(d); self._key, self._reached, self._go, self._done = key, reached, go, False
+        def __getitem__(self, k):
+            if k == self._key and not self._done:
+                self._done = True; self._reached.set(); self._go.wait(10)
+            return super().__getitem__(k)
+    for a in args:
+        res = {"case": {k: a[k] for k in a if k != "root"}}
+        try:
+            roots = [Path(a["root"] + "_A"), Path(a["root"] + "_B")]
+            for r_ in roots: shutil.rmtree(r_, ignore_errors=True)
+            A = [Attribute(name=n, dtype=d, shape=s) for n, d, s in decl]
+            dsA, dsB = (sp.mk(r_, fmt=a["fmt"], eps=50, attrs=A) for r_ in roots)
+            reached, go = threading.Event(), threading.Event()
+            outcomes = {"A": [], "B": []}
+            def writer_a():
+                with dsA.filler() as f:
+                    for v, bad in ((1, None), (2, a["bad_attr"]), (3, None)):
+                        vals = example(v, bad)
+                        if bad is not None:
+                            vals = Pausing(vals, a["pause_key"], reached, go)
+                        try:
+                            f.write_example(values=vals, split="train"); outcomes["A"].append([v, "ok"])
+                        except Exception as e:  # noqa: BLE001
+                            outcomes["A"].append([v, f"rejected:{type(e).__name__}"])
+            errs = []
+            def run_a():
+                try: writer_a()
+                except Exception as e:  # noqa: BLE001
+                    errs.append(f"{type(e).__name__}: {str(e)[:150]}")
+            t = threading.Thread(target=run_a); t.start()
+            res["paused"] = reached.wait(2.0)            # (a writer that rejects before it looks at `pause_key` never pauses)
+            try:
+                with dsB.filler() as f:
+                    for v, bad in (((11, None), (12, "a"), (13, None), (14, "c")) if a.get("b_ends_bad") else ((11, None), (14, "c"), (12, "a"), (13, None))):
+                        try:
+                            f.write_example(values=example(v, bad), split="train"); outcomes["B"].append([v, "ok"])
+                        except Exception as e:  # noqa: BLE001
+                            outcomes["B"].append([v, f"rejected:{type(e).__name__}"])
+            finally:
+                go.set()
+            t.join(30)
+            res["outcomes"] = outcomes; res["errors"] = errs
+            def read(r_):
+                try: return sorted(sp.read_ids(Dataset(r_), "train"))
+                except Exception as e:  # noqa: BLE001
+                    return f"{type(e).__name__}: {str(e)[:120]}"
+            res["read"] = {"A": read(roots[0]), "B": read(roots[1])}
+            for r_ in roots: shutil.rmtree(r_, ignore_errors=True)
+        except Exception as e:  # noqa: BLE001
+            res["error"] = f"{type(e).__name__}: {str(e)[:200]}"
+        out.append(res)
+    return out
+
+
 def run(ctx):
+    # ---- two writers of one process at overlapping times (unrelated datasets): verdicts are per example
+    oargs = [{"root": str(ctx.scratch / f"c18_ov_{fmt}_{bad}_{pk}"), "fmt": fmt, "bad_attr": bad, "pause_key": pk}
+             for fmt in (["fb", "npz"] if not ctx.thorough else ["fb", "npz", "tfrec"]) for bad, pk in (("a", "b"), ("a", "c"), ("b", "c"), ("b", "a"))]
+    for k_, oa in enumerate(oargs): oa["b_ends_bad"] = bool(k_ % 2)
+    novl = 0
+    for r in child.call("harness.checks.c18", "overlapping_writers", oargs, timeout=900):
+        novl += 1
+        c = r["case"]
+        bad = r.get("error") or r.get("errors") or r["read"]["A"] != [1, 3] or r["read"]["B"] != [11, 13] \
+            or [o for _, o in r["outcomes"]["A"]][1] == "ok" or sorted(v for v, o in r["outcomes"]["B"] if o == "ok") != [11, 13]
+        if bad:
+            ctx.report({"kind": "overlapping-writers", "format": c["fmt"]},
+                       f"{c['fmt']}: a wrong-shaped example (attribute {c['bad_attr']}) whose validation overlaps in time with another thread's writes into an unrelated dataset "
+                       f"(paused at {c['pause_key']}: {r.get('paused')}): outcomes {r.get('outcomes')}, read back {r.get('read')} {r.get('error') or r.get('errors') or ''}", {"overlap_case": c, "result": {k: v for k, v in r.items() if k != 'case'}})
+    ctx.cov["overlapping_writer_runs"] = novl
     wl = writer_level(ctx)
     cases = F.explore(ctx, "C18")
     for c in cases:
